@@ -1,31 +1,22 @@
 /-
-  Glue — the separately built models agree with each other, and the literal constants they repeat
-  are the ones the source has now.
+  Glue (dispatch) — the separately built models agree with each other on handler resolution.
 
-  1. K4 ↔ K8: `Sio.Server.resolve` (the handler resolution inside the server-core model) selects,
-     for every registry, namespace and STRING event name (ordinary, reserved, `"*"`, empty), exactly
-     what `Sio.Dispatch.resolve .server` selects, with the documented argument prefix; hence the
-     C13 precedence table holds for the handler `Sio.Server.step` invokes for an incoming EVENT.
-  2. K7 ↔ K8: the same for the client model's registry `Sio.Client.Reg.resolve` and
-     `Sio.Dispatch.resolve .client`.
-  3. Constants: `Sio/Generated/Constants.lean` is regenerated from the source by
-     `harness/translate_constants.py`; the theorems of the last section say that the constants of
-     the hand-written models equal the generated ones (so a changed literal in the source makes
-     this file fail to build).
+  K4 ↔ K8: `Sio.Server.resolve` (the handler resolution inside the server-core model) selects, for
+  every registry, namespace (a namespace literally named `"*"` included) and STRING event name
+  (ordinary, reserved, `"*"`, empty), exactly what `Sio.Dispatch.resolve .server` selects, with the
+  documented argument prefix; hence the C13 precedence table holds for the handler `Sio.Server.step`
+  invokes for an incoming EVENT.  K7 ↔ K8: the same for the client model's registry
+  `Sio.Client.Reg.resolve` and `Sio.Dispatch.resolve .client`.
+  (The only glue module that depends on `Sio.Props.C13`; the constants are in GlueCodec / GlueServer /
+  GlueReconnect.)
 -/
 import Sio.Model.Dispatch
 import Sio.Model.Server
 import Sio.Model.Client
-import Sio.Model.Reconnect
 import Sio.Props.C13
 import Sio.Props.C05
 import Sio.Props.C09
-import Sio.Props.C10
-import Sio.Lemmas.CodecHdr
-import Sio.Lemmas.CodecGuards
-import Sio.Lemmas.ServerConn
-import Sio.Generated.Constants
-namespace Sio.Glue
+namespace Sio.GlueDispatch
 open Sio
 
 /-! ## K4 ↔ K8: the server core's own `resolve` is `Dispatch.resolve .server` -/
@@ -354,166 +345,4 @@ theorem client_event_dispatch (r : Client.Reg) (ret : Client.Slot → List J →
   rw [← client_resolve_eq]
   exact (C09.invoke_once ⟨r.resolve, ret⟩ c raw ns id name args hb he).2
 
-/-! ## the constants of the models are the constants of the source -/
-
-/-- packet type numbers (`packet.py`) -/
-theorem packet_types_eq :
-    Sio.CONNECT = Generated.CONNECT ∧ Sio.DISCONNECT = Generated.DISCONNECT ∧
-    Sio.EVENT = Generated.EVENT ∧ Sio.ACK = Generated.ACK ∧
-    Sio.CONNECT_ERROR = Generated.CONNECT_ERROR ∧ Sio.BINARY_EVENT = Generated.BINARY_EVENT ∧
-    Sio.BINARY_ACK = Generated.BINARY_ACK := by decide
-
-/-- `packet_names` is indexed by the type numbers -/
-theorem packet_names_consistent :
-    Generated.packetNames[Generated.CONNECT]? = some "CONNECT".toList ∧
-    Generated.packetNames[Generated.DISCONNECT]? = some "DISCONNECT".toList ∧
-    Generated.packetNames[Generated.EVENT]? = some "EVENT".toList ∧
-    Generated.packetNames[Generated.ACK]? = some "ACK".toList ∧
-    Generated.packetNames[Generated.CONNECT_ERROR]? = some "CONNECT_ERROR".toList ∧
-    Generated.packetNames[Generated.BINARY_EVENT]? = some "BINARY_EVENT".toList ∧
-    Generated.packetNames[Generated.BINARY_ACK]? = some "BINARY_ACK".toList ∧
-    Generated.packetNames.length = 7 := by decide
-
-/-- `if dash > 10: raise ValueError('too many attachments')` -/
-theorem attDigitLimit_eq : Sio.attDigitLimit = Generated.attDigitLimit := by decide
-
-/-- `if not ep[i].isdigit() or i >= 100: break` -/
-theorem idDigitLimit_eq : Sio.idDigitLimit = Generated.idDigitLimit := by decide
-
-/-- The two resource guards of C01 / C12 with the source's literals: an accepted header announces
-    fewer than `10 ^ limit` attachments and carries an id below `10 ^ limit`. -/
-theorem header_guards {cls : Char → DC} (hd : DecLt10 cls) {s : Str} {h : Hdr}
-    (hh : decodeHdr cls s = .ok h) :
-    h.natt < 10 ^ Generated.attDigitLimit ∧ ∀ i, h.id = some i → i < 10 ^ Generated.idDigitLimit := by
-  obtain ⟨ep1, ep2, h1, h2⟩ := decodeHdr_parts hh
-  refine ⟨scanAtt_bound hd h1, ?_⟩
-  intro i hi
-  rw [hi] at h2
-  exact scanId_bound hd h2
-
-/-- … and everything below the limits is accepted by the scanners. -/
-theorem scanners_accept {cls : Char → DC} (hcls : AsciiCls cls) :
-    (∀ n rest, n < 10 ^ Generated.attDigitLimit →
-      scanAtt cls (natStr n ++ '-' :: rest) = .ok (n, rest)) ∧
-    (∀ i body, i < 10 ^ Generated.idDigitLimit →
-      (body = [] ∨ ∃ c r, body = c :: r ∧ (cls c).isDigit = false) →
-      scanId cls (natStr i ++ body) = .ok (some i, body)) :=
-  ⟨fun _ rest hn => scanAtt_count hcls hn rest, fun _ _ hi hb => scanId_id hcls hi hb⟩
-
-/-- `'Unable to connect'`: what the server model answers to a CONNECT for a namespace that is not
-    served (or on which the transport already has a session) is the string of `server.py`, and
-    `async_server.py` has the same. -/
-theorem unable_to_connect (cfg : Server.Cfg) (s : Server.Srv) (t : Rooms.Eio) (nsp : Option Str)
-    (data : Option J)
-    (h : Server.isServed cfg (nsp.getD ['/']) = false ∨
-      (Rooms.sidOf s.rooms (nsp.getD ['/']) t).isSome = true) :
-    Server.handleConnect cfg s t nsp data =
-      (s, Server.sendTo s (some t)
-        (Server.pktConnectError (nsp.getD ['/']) (.str Generated.serverUnableToConnect))) ∧
-    Generated.asyncServerUnableToConnect = Generated.serverUnableToConnect := by
-  have hs : "Unable to connect".toList = Generated.serverUnableToConnect := by decide
-  exact ⟨hs ▸ Server.handleConnect_refused_early cfg s t nsp data h, by decide⟩
-
-/-- `ConnectionRefusedError(*args).error_args`: keys and default message of `exceptions.py`. -/
-theorem refused_error_args (m d : J) (ds : List J) :
-    Server.errorArgs [] = .obj [(Generated.refusedMessageKey, .str Generated.refusedDefaultMessage)] ∧
-    Server.errorArgs [m] = .obj [(Generated.refusedMessageKey, m)] ∧
-    Server.errorArgs [m, d] = .obj [(Generated.refusedMessageKey, m), (Generated.refusedDataKey, d)] ∧
-    Server.errorArgs (m :: d :: d :: ds) =
-      .obj [(Generated.refusedMessageKey, m), (Generated.refusedDataKey, .arr (d :: d :: ds))] := by
-  have h1 : "message".toList = Generated.refusedMessageKey := by decide
-  have h2 : "data".toList = Generated.refusedDataKey := by decide
-  have h3 : "Connection rejected by server".toList = Generated.refusedDefaultMessage := by decide
-  simp only [Server.errorArgs, Server.objOf, List.map_cons, List.map_nil, h1, h2, h3, and_self]
-
-/-- `disconnect()` ends the session with engine.io's `reason.SERVER_DISCONNECT`. -/
-theorem server_disconnect_reason (cfg : Server.Cfg) (s : Server.Srv) (sid : Rooms.Sid) (ns : Rooms.Ns) :
-    Server.apiDisconnect cfg s sid ns =
-      if !Server.isConnected s sid ns then (s, [])
-      else ((Server.endSession cfg s sid ns Generated.ServerReason.SERVER_DISCONNECT true).1,
-            (Server.endSession cfg s sid ns Generated.ServerReason.SERVER_DISCONNECT true).2.1) := by
-  have h : "server disconnect".toList = Generated.ServerReason.SERVER_DISCONNECT := by decide
-  rw [← h]; rfl
-
-/-- a DISCONNECT packet ends the session with engine.io's `reason.CLIENT_DISCONNECT`. -/
-theorem client_disconnect_reason (cfg : Server.Cfg) (s : Server.Srv) (t : Rooms.Eio) (p : Packet)
-    (natt : Nat) (hp : p.type = DISCONNECT) :
-    Server.dispatchPacket cfg s t p natt =
-      ((Server.handleDisconnect cfg s t (p.nsp.getD ['/']) Generated.ServerReason.CLIENT_DISCONNECT).1,
-       (Server.handleDisconnect cfg s t (p.nsp.getD ['/']) Generated.ServerReason.CLIENT_DISCONNECT).2.1) := by
-  have h : "client disconnect".toList = Generated.ServerReason.CLIENT_DISCONNECT := by decide
-  rw [← h]
-  unfold Server.dispatchPacket
-  simp [hp, DISCONNECT, CONNECT]
-
-/-- the reason strings: the client model's, and the asyncio classes see the same ones -/
-theorem reason_strings :
-    Client.rClient = Generated.ClientReason.CLIENT_DISCONNECT ∧
-    Client.rServer = Generated.ClientReason.SERVER_DISCONNECT ∧
-    Client.rTransport = Generated.ClientReason.TRANSPORT_ERROR ∧
-    Generated.AsyncClientReason.CLIENT_DISCONNECT = Generated.ClientReason.CLIENT_DISCONNECT ∧
-    Generated.AsyncClientReason.SERVER_DISCONNECT = Generated.ClientReason.SERVER_DISCONNECT ∧
-    Generated.AsyncClientReason.TRANSPORT_ERROR = Generated.ClientReason.TRANSPORT_ERROR ∧
-    Generated.AsyncServerReason.CLIENT_DISCONNECT = Generated.ServerReason.CLIENT_DISCONNECT ∧
-    Generated.AsyncServerReason.SERVER_DISCONNECT = Generated.ServerReason.SERVER_DISCONNECT ∧
-    Generated.AsyncServerReason.PING_TIMEOUT = Generated.ServerReason.PING_TIMEOUT ∧
-    Generated.AsyncServerReason.TRANSPORT_CLOSE = Generated.ServerReason.TRANSPORT_CLOSE ∧
-    Generated.AsyncServerReason.TRANSPORT_ERROR = Generated.ServerReason.TRANSPORT_ERROR ∧
-    -- both sides of the wire name the two deliberate disconnections alike
-    Generated.ServerReason.CLIENT_DISCONNECT = Generated.ClientReason.CLIENT_DISCONNECT ∧
-    Generated.ServerReason.SERVER_DISCONNECT = Generated.ClientReason.SERVER_DISCONNECT := by decide
-
-/-- the constructor defaults of `Client(...)`, as a `Reconnect.Cfg` -/
-def defaultCfg : Reconnect.Cfg :=
-  ⟨Generated.clientReconnectionDefault, Generated.clientReconnectionAttemptsDefault,
-   Generated.clientReconnectionDelayDefault, Generated.clientReconnectionDelayMaxDefault,
-   Generated.clientRandomizationFactorDefault⟩
-
-/-- The library defaults the C10 theorems are illustrated with (`C10.cfgEx`: 1 s, cap 5 s, factor ½;
-    its limit of 3 attempts is not the default, which is "no limit") are the defaults of the source;
-    `AsyncClient(...)` has the same. -/
-theorem reconnect_defaults :
-    defaultCfg.reconnection = true ∧ defaultCfg.attempts = 0 ∧ defaultCfg.delay = 1 ∧
-    defaultCfg.delayMax = 5 ∧ defaultCfg.rf = 1 / 2 ∧
-    C10.cfgEx.reconnection = defaultCfg.reconnection ∧ C10.cfgEx.delay = defaultCfg.delay ∧
-    C10.cfgEx.delayMax = defaultCfg.delayMax ∧ C10.cfgEx.rf = defaultCfg.rf ∧
-    Generated.asyncClientReconnectionDefault = Generated.clientReconnectionDefault ∧
-    Generated.asyncClientReconnectionAttemptsDefault = Generated.clientReconnectionAttemptsDefault ∧
-    Generated.asyncClientReconnectionDelayDefault = Generated.clientReconnectionDelayDefault ∧
-    Generated.asyncClientReconnectionDelayMaxDefault = Generated.clientReconnectionDelayMaxDefault ∧
-    Generated.asyncClientRandomizationFactorDefault = Generated.clientRandomizationFactorDefault := by
-  decide +kernel
-
-theorem one_le_two_pow (k : Nat) : (1 : Rat) ≤ 2 ^ k := by
-  induction k with
-  | zero => decide +kernel
-  | succ n ih => rw [Rat.pow_succ]; grind
-
-/-- With the defaults of the source every back-off timeout is between 0 and `delay_max + factor`
-    (5.5 s), whatever `random()` returns in `[0, 1]` — the hypotheses of `C10.delay_nonneg` and
-    `C10.delay_capped` hold for the default configuration at every iteration. -/
-theorem default_waits_bounded (o : Nat → Bool) (r : Nat → Reconnect.Q) (a : Option Nat) (fuel k : Nat)
-    (w : Reconnect.Q) (h : (Reconnect.reconnect defaultCfg o r a fuel).waits[k]? = some w)
-    (h0 : 0 ≤ r k) (h1 : r k ≤ 1) : 0 ≤ w ∧ w ≤ 11 / 2 := by
-  obtain ⟨_, _, hd, hm, hf, _⟩ := reconnect_defaults
-  have hrf : (0 : Reconnect.Q) ≤ defaultCfg.rf := by rw [hf]; decide +kernel
-  have hpow : (1 : Reconnect.Q) ≤ 2 ^ k := one_le_two_pow k
-  have hsmall : defaultCfg.rf ≤ min (defaultCfg.delay * 2 ^ k) defaultCfg.delayMax := by
-    rw [hf, hd, hm, Rat.min_def]; split <;> grind
-  refine ⟨C10.delay_nonneg defaultCfg o r a fuel k w h hrf h0 h1 hsmall, ?_⟩
-  have := C10.delay_capped defaultCfg o r a fuel k w h hrf h0 h1
-  rw [hm, hf] at this
-  grind
-
--- non-vacuity: three failed attempts with the defaults, random() = ¼, ¾, ½
-example : (Reconnect.reconnect defaultCfg (fun _ => false)
-    (fun k => if k = 0 then 1/4 else if k = 1 then 3/4 else 1/2) none 3).waits = [3/4, 9/4, 4] := by
-  decide +kernel
-
-/-- `call()` waits 60 s by default on all four classes. -/
-theorem call_timeouts :
-    Generated.serverCallTimeout = 60 ∧ Generated.asyncServerCallTimeout = Generated.serverCallTimeout ∧
-    Generated.clientCallTimeout = Generated.serverCallTimeout ∧
-    Generated.asyncClientCallTimeout = Generated.serverCallTimeout := by decide +kernel
-
-end Sio.Glue
+end Sio.GlueDispatch
